@@ -18,7 +18,7 @@ CHECKS = {
          "Exploration. For accepted pairs the patch must be {} iff A equals B, mention only differing members, carry removed members as null and B's number literals; when B has no null member, applying it (reference and library) must give B. Rejection clause over all ordered pairs of root kinds. Exhaustive over the object universe and root-kind pairs; seeded edited objects (small deep diffs), independent objects, arrays of objects.",
          T, "DESIGN.md section 6 C03"),
  "C04": ("crash/panic monitor: recover() around every exported entry point of both packages inside isolated worker processes with a crash journal and per-case watchdogs, on hostile, mutated, enumerated and deeply nested inputs",
-         "Exploration. Every exported entry point of v5 and of the staged legacy package is called on awkward valid inputs, byte mutations, all <=3-token strings for each []byte parameter (quick: all <=2-token strings plus a stride of the 3-token ones), the full option matrix (256 combinations), nesting depths up to 100000, values that grow deeper than the decoder limit through operations (depth-growth), overflow-sized tokens and applicable relocation chains (a node shared between two locations becomes a cycle and a fatal stack overflow). A panic is caught by recover(), a fatal error or kill is attributed to the journalled case by the driver, a case exceeding the watchdog is re-run alone with 5x budget (only a second time-out is a hang).",
+         "Exploration. Every exported entry point of v5 and of the staged legacy package is called on awkward valid inputs, byte mutations, all <=3-token strings for each []byte parameter (quick: all <=2-token strings plus a stride of the 3-token ones), the full option matrix (256 combinations), nesting depths up to 100000, values that grow deeper than the decoder limit through operations (depth-growth), overflow-sized tokens and applicable relocation chains (a node shared between two locations becomes a cycle and a fatal stack overflow), and an exhaustive family of nulls stored by the patch, relocated and then descended into (both packages). A panic is caught by recover(), a fatal error or kill is attributed to the journalled case by the driver, a case exceeding the watchdog is re-run alone with 5x budget (only a second time-out is a hang).",
          "Trusted: Go runtime's recover and process exit status. 'Never hangs' is decided in the bounded form stated in DESIGN.md section 9. Inputs beyond the generator bounds are not covered.", "DESIGN.md section 6 C04"),
  "C05": ("ordered, literal-exact differential monitor: outputs parsed by an order-preserving parser and compared with the reference's order model; invariant hook on the live tree",
          "Exploration. Apply outputs must match the reference member by member, in order, number literals as text; the empty patch must reproduce order and literals; MergePatch must keep survivors in document order ahead of new members and untouched members identical. The ApplyEnd hook walks the live tree (key list vs member map agreement) at the end of every call. EnsurePathExistsOnAdd through null-valued members (the member keeps its place). The four Apply entry points must agree on one input in three.",
@@ -45,19 +45,19 @@ CHECKS = {
          "Exploration. Copy-heavy sequences on encoder-spelled documents (sizes from the reference spelling) and on documents in arbitrary spelling with whitespace (sizes measured on the library own output: the patch is applied up to each copy and the text found at the destination is measured); v5 per-call limit, package default, per-call limit against a different package default (0 included), one options value reused for four calls in a row, root replacement before the copies, legacy package default; error must be *AccumulatedCopySizeError exactly when the total exceeds a positive limit; limit 0 disables; other operations never produce accounting events.",
          T, "DESIGN.md section 6 C12"),
  "C13": ("metamorphic monitor: Apply(option on, P) vs Apply(option off, P minus the removes the reference says address absent targets), plus the reference itself",
-         "Exploration. Exhaustive single operations and seeded remove-heavy sequences; document bytes or error class must match between the two runs of the library, and the reference; the failing operation must be the same one (OpDone hook); one options value set once and reused for a history of judged and unjudged failing calls.",
+         "Exploration. Exhaustive single operations and seeded remove-heavy sequences; document bytes or error class must match between the two runs of the library, and the reference; the failing operation must be the same one (OpDone hook); one options value set once and reused for a history of judged and unjudged failing calls; empty reference tokens (\"/a/\" names the member called \"\") are inside the domain.",
          T, "DESIGN.md section 6 C13"),
  "C14": ("reference + independent postcondition monitor: ensure-then-add reference, resolver finds the added value, frame check over every pre-existing pointer, created containers hold only path and padding, plain adds unchanged",
-         "Exploration. Exhaustive: all paths of <=3 (thorough 4) tokens over 9 tokens on 8 documents x 2 values; seeded random paths with existing prefixes followed by further operations; arrays shrunk by remove/move and then padded by an ensure-path add; an add that reports success must have put the value at the path also where the reference defines no result (member-name token on an array).",
+         "Exploration. Exhaustive: all paths of <=3 (thorough 4) tokens over 9 tokens on 8 documents x 2 values; seeded random paths with existing prefixes followed by further operations; arrays shrunk by remove/move and then padded by an ensure-path add; an add that reports success must have put the value at the path also where the reference defines no result (member-name token on an array); passing tests before the add; zero-padded and signed digit strings are member names where a container is created.",
          T, "DESIGN.md section 6 C14"),
  "C15": ("byte-level output monitor: independent RFC 8259 recogniser + encoding/json on every output, raw-HTML-byte scan, EscapeRaw(off)==on identity, reference re-indentation, passing-test invariance",
-         "Exploration. Hostile strings and member names (<,>,&,U+2028/9, quotes, backslashes, controls, non-BMP, lone surrogates) in touched/untouched/copied/moved/tested positions and beneath containers created by EnsurePathExistsOnAdd; passing-test invariance also on documents with insignificant whitespace; all five producing entry points.",
+         "Exploration. Hostile strings and member names (<,>,&,U+2028/9, quotes, backslashes, controls, non-BMP, lone surrogates) in touched/untouched/copied/moved/tested positions and beneath containers created by EnsurePathExistsOnAdd; passing-test invariance also on documents with insignificant whitespace; results nested deeper than the decoder reads (known finding F03); all five producing entry points.",
          T + " Byte-identity clauses only on encoder-spelled inputs (stated domain).", "DESIGN.md section 6 C15"),
  "C16": ("language-equality monitor: embedded codec acceptors vs independent recogniser (encoding/json as second opinion) exhaustively over short byte/token strings; entry-point gates per []byte parameter",
          "Exploration. Exhaustive: all byte strings <=4 (thorough 5) over 20 symbols, all <=3 (thorough 4) token sequences over 42 tokens, nesting 9999/10000/10001; seeded generated and mutated texts; 11 entry-point gates on the token set, generated texts and patches respelled with random escapes; runs of invalid UTF-8 inside strings.",
          T + " Ill-formed UTF-8 compared with encoding/json only.", "DESIGN.md section 6 C16"),
  "C17": ("differential monitor: embedded codec vs this toolchain's encoding/json and an independent parser, on texts, Go values and run-time generated struct types, in one long history per worker under the pool sanitizer",
-         "Exploration. Round trip through each of the four decoding entry points and both escape settings, and key lists, vs the ordered parser; every decimal exponent -35..35 of float32/float64 in plain, pointer, interface, map, struct and quoted (,string) positions; Compact/Indent/HTMLEscape bytes; Marshal/MarshalIndent/MarshalEscaped/Encoder bytes; Unmarshal/Decoder into reflect.StructOf types with tags; Decoder streams (Decode/Token/More/Buffered/InputOffset); the fork-only RedirectMarshaler/TrustMarshaler in every position; names needing Unicode simple folding; Number accessors and misuse errors; values, bytes, error presence and SyntaxError offsets must agree.",
+         "Exploration. Round trip through each of the four decoding entry points and both escape settings, and key lists, vs the ordered parser; every decimal exponent -35..35 of float32/float64 in plain, pointer, interface, map, struct and quoted (,string) positions; Compact/Indent/HTMLEscape bytes; Marshal/MarshalIndent/MarshalEscaped/Encoder bytes; Unmarshal/Decoder into reflect.StructOf types with tags; Decoder streams (Decode/Token/More/Buffered/InputOffset); the fork-only RedirectMarshaler/TrustMarshaler in every position; names needing Unicode simple folding; Number accessors and misuse errors; Token/Decode walks over containers with elements that do not fit; byte slices kept from an earlier decode of the same variable; key lists also for an any target; values, bytes, error presence and SyntaxError offsets must agree.",
          "Trusted: go1.23 encoding/json as ground truth; normalised: U+0008/U+000C spelling and the Number type.", "DESIGN.md section 6 C17"),
  "C18": ("differential runtime monitor: legacy package (staged from /repo root at check time) vs the reference evaluator in the v4 dialect",
          "Exploration. Exhaustive single operations and seeded sequences; all-applicable sequences must give the RFC result up to member order; failed test / remove-move of absent location / index out of range must give an error and no document.",
